@@ -1,7 +1,1463 @@
 package main
 
-import "verif/harness/internal/corr"
+import (
+	"archive/zip"
+	"bufio"
+	"bytes"
+	"encoding/json"
+	"fmt"
+	"io"
+	"log"
+	"math/rand"
+	"net/http"
+	"net/url"
+	"os"
+	"os/exec"
+	"path/filepath"
+	"sort"
+	"strings"
+	"sync"
+
+	"github.com/rogpeppe/go-internal/goproxytest"
+	"golang.org/x/mod/module"
+	"golang.org/x/mod/semver"
+	xtxtar "golang.org/x/tools/txtar"
+
+	"verif/harness/internal/corr"
+	"verif/harness/internal/mdl"
+)
+
+// ============================================================ the served directory, read back from disk
+
+type dfile struct {
+	comps []string
+	data  []byte
+}
+
+type entry struct {
+	name  string
+	isDir bool
+	data  []byte  // regular file
+	files []dfile // directory: regular files below it
+}
+
+func readTree(root string, comps []string, out *[]dfile) {
+	es, err := os.ReadDir(root)
+	if err != nil {
+		panic(err)
+	}
+	for _, e := range es {
+		c := append(append([]string{}, comps...), e.Name())
+		p := filepath.Join(root, e.Name())
+		if e.IsDir() {
+			readTree(p, c, out)
+		} else {
+			d, err := os.ReadFile(p)
+			if err != nil {
+				panic(err)
+			}
+			*out = append(*out, dfile{c, d})
+		}
+	}
+}
+
+func readStore(dir string) []entry {
+	es, err := os.ReadDir(dir)
+	if err != nil {
+		panic(err)
+	}
+	var out []entry
+	for _, e := range es {
+		en := entry{name: e.Name(), isDir: e.IsDir()}
+		p := filepath.Join(dir, e.Name())
+		if e.IsDir() {
+			readTree(p, nil, &en.files)
+		} else {
+			d, err := os.ReadFile(p)
+			if err != nil {
+				panic(err)
+			}
+			en.data = d
+		}
+		out = append(out, en)
+	}
+	return out
+}
+
+func hx(s string) string { return corr.Hx([]byte(s)) }
+
+// encodeStore gives the `scn` store field; entries and directory files are shuffled (the model sorts).
+func encodeStore(es []entry, r *rand.Rand) string {
+	if len(es) == 0 {
+		return "_"
+	}
+	es = append([]entry{}, es...)
+	r.Shuffle(len(es), func(i, j int) { es[i], es[j] = es[j], es[i] })
+	parts := make([]string, len(es))
+	for i, e := range es {
+		if !e.isDir {
+			parts[i] = "F:" + hx(e.name) + ":" + corr.Hx(e.data)
+			continue
+		}
+		fs := append([]dfile{}, e.files...)
+		r.Shuffle(len(fs), func(i, j int) { fs[i], fs[j] = fs[j], fs[i] })
+		fparts := make([]string, len(fs))
+		for j, f := range fs {
+			cs := make([]string, len(f.comps))
+			for k, c := range f.comps {
+				cs[k] = hx(c)
+			}
+			fparts[j] = strings.Join(cs, "/") + "=" + corr.Hx(f.data)
+		}
+		if len(fparts) == 0 {
+			parts[i] = "D:" + hx(e.name) + ":_"
+		} else {
+			parts[i] = "D:" + hx(e.name) + ":" + strings.Join(fparts, "+")
+		}
+	}
+	return strings.Join(parts, ",")
+}
+
+func decodeStore(s string) []entry {
+	if s == "_" {
+		return nil
+	}
+	var out []entry
+	for _, p := range strings.Split(s, ",") {
+		f := strings.Split(p, ":")
+		en := entry{name: string(corr.Unhx(f[1]))}
+		if f[0] == "F" {
+			en.data = corr.Unhx(f[2])
+		} else {
+			en.isDir = true
+			if f[2] != "_" {
+				for _, fe := range strings.Split(f[2], "+") {
+					kv := strings.Split(fe, "=")
+					var comps []string
+					for _, c := range strings.Split(kv[0], "/") {
+						comps = append(comps, string(corr.Unhx(c)))
+					}
+					en.files = append(en.files, dfile{comps, corr.Unhx(kv[1])})
+				}
+			}
+		}
+		out = append(out, en)
+	}
+	return out
+}
+
+func writeStore(dir string, es []entry) {
+	for _, e := range es {
+		p := filepath.Join(dir, e.name)
+		if !e.isDir {
+			must(os.WriteFile(p, e.data, 0o666))
+			continue
+		}
+		must(os.MkdirAll(p, 0o777))
+		for _, f := range e.files {
+			fp := filepath.Join(append([]string{p}, f.comps...)...)
+			must(os.MkdirAll(filepath.Dir(fp), 0o777))
+			must(os.WriteFile(fp, f.data, 0o666))
+		}
+	}
+}
+
+func must(err error) {
+	if err != nil {
+		panic(err)
+	}
+}
+
+type afile struct {
+	name string
+	data []byte
+}
+
+// infoDatas: every ".info" payload reachable in the directory, with its Short field decoded the way findHash does.
+func shortsField(es []entry) string {
+	seen := map[string]bool{}
+	var parts []string
+	add := func(d []byte) {
+		if seen[string(d)] {
+			return
+		}
+		seen[string(d)] = true
+		var info struct{ Short string }
+		json.Unmarshal(d, &info)
+		parts = append(parts, corr.Hx(d)+"="+hx(info.Short))
+	}
+	add(nil)
+	for _, e := range es {
+		if e.isDir {
+			for _, f := range e.files {
+				if len(f.comps) == 1 && f.comps[0] == ".info" {
+					add(f.data)
+				}
+			}
+		} else {
+			for _, f := range xtxtar.Parse(e.data).Files {
+				if f.Name == ".info" {
+					add(f.Data)
+				}
+			}
+		}
+	}
+	return strings.Join(parts, ",")
+}
+
+// ============================================================ running the real server
+
+type resp struct {
+	status int
+	body   []byte
+}
+
+func get(client *http.Client, host, p string) resp {
+	u := &url.URL{Scheme: "http", Host: host, Path: p}
+	r, err := client.Get(u.String())
+	if err != nil {
+		return resp{-1, []byte(err.Error())}
+	}
+	defer r.Body.Close()
+	b, _ := io.ReadAll(r.Body)
+	return resp{r.StatusCode, b}
+}
+
+func zipMembers(b []byte) ([]afile, error) {
+	zr, err := zip.NewReader(bytes.NewReader(b), int64(len(b)))
+	if err != nil {
+		return nil, err
+	}
+	var out []afile
+	for _, f := range zr.File {
+		rc, err := f.Open()
+		if err != nil {
+			return nil, err
+		}
+		d, err := io.ReadAll(rc)
+		rc.Close()
+		if err != nil {
+			return nil, err
+		}
+		out = append(out, afile{f.Name, d})
+	}
+	return out, nil
+}
+
+// showResp renders an HTTP response in the model driver's notation.
+func showResp(p string, r resp) string {
+	switch {
+	case r.status == 404:
+		if string(r.body) != "404 page not found\n" {
+			return "404:unexpected-body:" + corr.Hx(r.body)
+		}
+		return "404"
+	case r.status == 500:
+		return "500"
+	case r.status != 200:
+		return fmt.Sprintf("other:%d:%s", r.status, corr.Hx(r.body))
+	}
+	if strings.HasSuffix(p, ".zip") {
+		ms, err := zipMembers(r.body)
+		if err != nil {
+			return "badzip:" + corr.Hx(r.body)
+		}
+		if len(ms) == 0 {
+			return "z:_"
+		}
+		parts := make([]string, len(ms))
+		for i, m := range ms {
+			parts[i] = hx(m.name) + "=" + corr.Hx(m.data)
+		}
+		return "z:" + strings.Join(parts, "+")
+	}
+	return "b:" + corr.Hx(r.body)
+}
+
+type runOut struct {
+	startErr error
+	seq      []resp            // responses of the sequential pass, in request order
+	conc     map[string][]resp // responses of the concurrent pass, per URL path
+}
+
+// runServers serves dir with the real goproxytest server twice: a concurrent pass on a fresh server
+// (32 goroutines, every URL several times, first requests racing) and a sequential pass on another fresh server.
+func runServers(dir string, urls []string, concCopies int, r *rand.Rand) runOut {
+	var out runOut
+	tr := &http.Transport{MaxIdleConnsPerHost: 64}
+	client := &http.Client{Transport: tr}
+	defer tr.CloseIdleConnections()
+
+	srv, err := goproxytest.NewServer(dir, "")
+	if err != nil {
+		out.startErr = err
+		return out
+	}
+	host := strings.TrimSuffix(strings.TrimPrefix(srv.URL, "http://"), "/mod")
+	if concCopies > 0 {
+		var work []string
+		seen := map[string]bool{}
+		for _, u := range urls {
+			if !seen[u] {
+				seen[u] = true
+				for k := 0; k < concCopies; k++ {
+					work = append(work, u)
+				}
+			}
+		}
+		r.Shuffle(len(work), func(i, j int) { work[i], work[j] = work[j], work[i] })
+		out.conc = map[string][]resp{}
+		var mu sync.Mutex
+		var wg sync.WaitGroup
+		start := make(chan struct{})
+		const workers = 32
+		for w := 0; w < workers; w++ {
+			wg.Add(1)
+			go func(w int) {
+				defer wg.Done()
+				<-start
+				for i := w; i < len(work); i += workers {
+					rp := get(client, host, work[i])
+					mu.Lock()
+					out.conc[work[i]] = append(out.conc[work[i]], rp)
+					mu.Unlock()
+				}
+			}(w)
+		}
+		close(start)
+		wg.Wait()
+	}
+	srv.Close()
+	tr.CloseIdleConnections()
+
+	srv2, err := goproxytest.NewServer(dir, "")
+	if err != nil {
+		out.startErr = err
+		return out
+	}
+	host2 := strings.TrimSuffix(strings.TrimPrefix(srv2.URL, "http://"), "/mod")
+	for _, u := range urls {
+		out.seq = append(out.seq, get(client, host2, u))
+	}
+	srv2.Close()
+	return out
+}
+
+// ============================================================ the oracle (directory + URL + response; no model)
+
+// specDecode inverts the documented naming convention "path_vers, slashes replaced by underscores,
+// upper-case letters escaped as !lower": the version is what follows the last "_v" (versions start with v).
+func specDecode(base string) (p, v string, ok bool) {
+	i := strings.LastIndex(base, "_v")
+	if i < 0 {
+		return "", "", false
+	}
+	p, err := module.UnescapePath(strings.ReplaceAll(base[:i], "_", "/"))
+	if err != nil {
+		return "", "", false
+	}
+	v, err = module.UnescapeVersion(base[i+1:])
+	if err != nil {
+		return "", "", false
+	}
+	return p, v, true
+}
+
+type storedMod struct {
+	contents [][]afile // one per layout present (txtar, txt, dir)
+	unclear  bool      // a layout the documentation does not define (e.g. a directory called x.txt)
+}
+
+func specStored(es []entry) map[[2]string]*storedMod {
+	out := map[[2]string]*storedMod{}
+	for _, e := range es {
+		base, kind := e.name, ""
+		switch {
+		case strings.HasSuffix(e.name, ".txt"):
+			base, kind = strings.TrimSuffix(e.name, ".txt"), "archive"
+		case strings.HasSuffix(e.name, ".txtar"):
+			base, kind = strings.TrimSuffix(e.name, ".txtar"), "archive"
+		case e.isDir:
+			kind = "dir"
+		default:
+			continue
+		}
+		p, v, ok := specDecode(base)
+		if !ok {
+			continue
+		}
+		key := [2]string{p, v}
+		sm := out[key]
+		if sm == nil {
+			sm = &storedMod{}
+			out[key] = sm
+		}
+		switch {
+		case kind == "archive" && e.isDir:
+			sm.unclear = true
+		case kind == "archive":
+			var fs []afile
+			for _, f := range xtxtar.Parse(e.data).Files {
+				fs = append(fs, afile{f.Name, f.Data})
+			}
+			sm.contents = append(sm.contents, fs)
+		default:
+			var fs []afile
+			for _, f := range e.files {
+				fs = append(fs, afile{strings.Join(f.comps, "/"), f.data})
+			}
+			sm.contents = append(sm.contents, fs)
+		}
+	}
+	return out
+}
+
+func isAllHexIndep(s string) bool {
+	return strings.Trim(s, "0123456789abcdef") == ""
+}
+
+func sortedMembers(ms []afile) []string {
+	out := make([]string, len(ms))
+	for i, m := range ms {
+		out[i] = m.name + "\x00" + string(m.data)
+	}
+	sort.Strings(out)
+	return out
+}
+
+func eqStrings(a, b []string) bool {
+	if len(a) != len(b) {
+		return false
+	}
+	for i := range a {
+		if a[i] != b[i] {
+			return false
+		}
+	}
+	return true
+}
+
+// oracle judges one response against the property statement.  It returns "" (fine or not covered) or class, what.
+func oracle(es []entry, stored map[[2]string]*storedMod, p string, r resp) (class, what string, checked bool) {
+	notFound := r.status == 404
+	rest, ok := strings.CutPrefix(p, "/mod/")
+	if !ok {
+		if !notFound {
+			return "malformed-not-404", fmt.Sprintf("status %d for a URL outside /mod/", r.status), true
+		}
+		return "", "", true
+	}
+	enc, file, ok := strings.Cut(rest, "/@v/")
+	if !ok {
+		if !notFound {
+			return "malformed-not-404", fmt.Sprintf("status %d for a URL without /@v/", r.status), true
+		}
+		return "", "", true
+	}
+	path, err := module.UnescapePath(enc)
+	if err != nil {
+		if !notFound {
+			return "malformed-not-404", fmt.Sprintf("status %d for an invalid escaped module path", r.status), true
+		}
+		return "", "", true
+	}
+	if file == "list" {
+		want := map[string]bool{}
+		for k, sm := range stored {
+			if k[0] == path && !sm.unclear && module.Check(k[0], k[1]) == nil && !module.IsPseudoVersion(k[1]) {
+				want[k[1]] = true
+			}
+		}
+		for k, sm := range stored {
+			if k[0] == path && sm.unclear {
+				return "", "", false
+			}
+		}
+		if len(want) == 0 {
+			if !notFound {
+				return "list-differs", fmt.Sprintf("list of a module without valid non-pseudo versions: status %d body %q", r.status, r.body), true
+			}
+			return "", "", true
+		}
+		if r.status != 200 {
+			return "list-differs", fmt.Sprintf("list status %d, want versions %v", r.status, keys(want)), true
+		}
+		got := map[string]bool{}
+		body := string(r.body)
+		if !strings.HasSuffix(body, "\n") {
+			return "list-differs", fmt.Sprintf("list body %q does not end in newline", body), true
+		}
+		for _, l := range strings.Split(strings.TrimSuffix(body, "\n"), "\n") {
+			got[l] = true
+		}
+		if !eqStrings(keys(got), keys(want)) {
+			return "list-differs", fmt.Sprintf("list = %v, want exactly %v", keys(got), keys(want)), true
+		}
+		return "", "", true
+	}
+	i := strings.LastIndex(file, ".")
+	if i < 0 {
+		if !notFound {
+			return "malformed-not-404", fmt.Sprintf("status %d for a file without extension", r.status), true
+		}
+		return "", "", true
+	}
+	vers, err := module.UnescapeVersion(file[:i])
+	ext := file[i+1:]
+	if err != nil {
+		if !notFound {
+			return "malformed-not-404", fmt.Sprintf("status %d for an invalid escaped version", r.status), true
+		}
+		return "", "", true
+	}
+	if isAllHexIndep(vers) {
+		return "", "", false // commit-hash queries: not part of the property statement (correspondence only)
+	}
+	sm := stored[[2]string{path, vers}]
+	if sm == nil {
+		if !notFound {
+			// does an archive exist under the derived name?  then this is the aliasing defect
+			class := "not-stored-200"
+			ep, e1 := module.EscapePath(path)
+			ev, e2 := module.EscapeVersion(vers)
+			if e1 == nil && e2 == nil {
+				base := strings.ReplaceAll(ep, "/", "_") + "_" + ev
+				for _, e := range es {
+					if e.name == base || e.name == base+".txt" || e.name == base+".txtar" {
+						class = "alias-not-stored-200"
+					}
+				}
+			}
+			return class, fmt.Sprintf("%s@%s is not stored but %s gives status %d", path, vers, p, r.status), true
+		}
+		return "", "", true
+	}
+	if sm.unclear {
+		return "", "", false
+	}
+	switch ext {
+	case "info", "mod":
+		anyHas := false
+		for _, c := range sm.contents {
+			for _, f := range c {
+				if f.name == "."+ext {
+					anyHas = true
+					if r.status == 200 && bytes.Equal(r.body, f.data) {
+						return "", "", true
+					}
+					break
+				}
+			}
+		}
+		if !anyHas {
+			return "", "", false // the archive lacks the file the documentation requires
+		}
+		if notFound && len(sm.contents) > 1 {
+			return "", "", false // several layouts, one of them without the file
+		}
+		if notFound {
+			return "stored-404", fmt.Sprintf("%s@%s is stored with a .%s file but %s is 404", path, vers, ext, p), true
+		}
+		return ext + "-differs", fmt.Sprintf("%s: status %d body %q is not the stored .%s", p, r.status, r.body, ext), true
+	case "zip":
+		if r.status != 200 {
+			return "stored-404", fmt.Sprintf("%s@%s is stored but %s gives %d", path, vers, p, r.status), true
+		}
+		ms, err := zipMembers(r.body)
+		if err != nil {
+			return "zip-invalid", fmt.Sprintf("%s: not a valid zip: %v", p, err), true
+		}
+		got := sortedMembers(ms)
+		prefix := path + "@" + vers + "/"
+		for _, c := range sm.contents {
+			var want []afile
+			for _, f := range c {
+				if !strings.HasPrefix(f.name, ".") {
+					want = append(want, afile{prefix + f.name, f.data})
+				}
+			}
+			if eqStrings(got, sortedMembers(want)) {
+				return "", "", true
+			}
+		}
+		for _, m := range ms {
+			if !strings.HasPrefix(m.name, prefix) {
+				return "zip-prefix-poisoned", fmt.Sprintf("%s: member %q lacks the prefix %q", p, m.name, prefix), true
+			}
+		}
+		return "zip-members-differ", fmt.Sprintf("%s: zip members are not exactly the stored non-dot files", p), true
+	default:
+		if !notFound {
+			return "malformed-not-404", fmt.Sprintf("status %d for unknown extension %q", r.status, ext), true
+		}
+	}
+	return "", "", true
+}
+
+func keys(m map[string]bool) []string {
+	var out []string
+	for k := range m {
+		out = append(out, k)
+	}
+	sort.Strings(out)
+	return out
+}
+
+// ============================================================ generators
+
+func escapeIndep(s string) string {
+	var b strings.Builder
+	for i := 0; i < len(s); i++ {
+		if 'A' <= s[i] && s[i] <= 'Z' {
+			b.WriteByte('!')
+			b.WriteByte(s[i] + 'a' - 'A')
+		} else {
+			b.WriteByte(s[i])
+		}
+	}
+	return b.String()
+}
+
+var hosts = []string{"example.com", "github.com", "rsc.io", "golang.org", "a.b-c.io", "x.org"}
+var elems = []string{"foo", "Foo", "BAR", "x_y", "my_vault", "a", "b", "Quote", "z-1", "q.r", "X_v", "_x", "v", "vv", "x_", "a~b", "CamelCase"}
+var majors = []string{"v2", "v3", "v10"}
+var gopkgs = []string{"gopkg.in/yaml.v2", "gopkg.in/check.v1", "gopkg.in/x.v0", "gopkg.in/Foo/bar.v3", "gopkg.in/y.v2-unstable"}
+var badPaths = []string{"Example.com/x", "example/x", "example.com/x/v1", "example.com/con", "example.com/a~1", "example.com/.x", "example.com/x.", "-x.com/a", "example.com/x/v02", "example.com/a@b", "gopkg.in/yaml", "example.com/v2.1"}
+
+func genPath(r *rand.Rand) string {
+	switch r.Intn(12) {
+	case 0:
+		return gopkgs[r.Intn(len(gopkgs))]
+	case 1:
+		return hosts[r.Intn(len(hosts))]
+	}
+	p := hosts[r.Intn(len(hosts))]
+	n := 1 + r.Intn(3)
+	for i := 0; i < n; i++ {
+		p += "/" + elems[r.Intn(len(elems))]
+	}
+	if r.Intn(4) == 0 {
+		p += "/" + majors[r.Intn(len(majors))]
+	}
+	return p
+}
+
+var relVersions = []string{"v1.0.0", "v1.2.3", "v0.1.0", "v2.0.0", "v2.3.4", "v3.0.0", "v1.10.0", "v0.0.1", "v10.0.0", "v1.2.10"}
+var preVersions = []string{"v1.0.0-rc.1", "v1.0.0-alpha", "v1.2.3-beta.2", "v1.0.0-RC1", "v1.0.0-0.3.7", "v2.0.0-pre", "v1.0.0-alpha.beta", "v1.0.0-x-y", "v1.2.3-0.2019010100000-abc"}
+var buildVersions = []string{"v1.0.0+meta", "v2.0.0+incompatible", "v1.0.0-rc.1+build.5", "v1.0.0+Meta", "v3.1.0+incompatible", "v2.0.0-pre+incompatible"}
+var pseudoVersions = []string{"v0.0.0-20190101000000-abcdef123456", "v1.2.4-0.20190101000000-abcdef123456", "v1.2.3-pre.0.20190101000000-abcdef123456",
+	"v2.0.1-0.20190101000000-abcdef123456+incompatible", "v1.0.0-20190101000000-abcdef123456", "v0.0.0-20200202020202-0123456789ab", "v2.0.0-20190101000000-ABCdef123456"}
+var oddVersions = []string{"v1", "v1.2", "vfoo", "v1.2.3.4", "v01.2.3", "v1.2.3-", "v1.2.3-01", "v1.2.x", "vx_v1.0.0", "v1.0.0_v2", "v1.0.0-a_b", "v", "v1.0.0+", "v1.0.0 x", "v1.0.0-é"}
+
+func genVersion(r *rand.Rand, path string) string {
+	pick := func(s []string) string { return s[r.Intn(len(s))] }
+	v := ""
+	switch k := r.Intn(20); {
+	case k < 8:
+		v = pick(relVersions)
+	case k < 11:
+		v = pick(preVersions)
+	case k < 13:
+		v = pick(buildVersions)
+	case k < 16:
+		v = pick(pseudoVersions)
+	case k < 18:
+		v = pick(oddVersions[:len(oddVersions)-2])
+	default:
+		// a random well-formed one
+		v = fmt.Sprintf("v%d.%d.%d", r.Intn(4), r.Intn(3), r.Intn(12))
+	}
+	// bias towards the major version the path asks for
+	if _, pm, ok := module.SplitPathVersion(path); ok && pm != "" && r.Intn(3) != 0 && strings.HasPrefix(v, "v") && len(v) > 2 {
+		if i := strings.Index(v, "."); i > 0 {
+			v = "v" + strings.TrimLeft(pm, "/.v") + v[i:]
+			v = strings.Replace(v, "-unstable", "", 1)
+		}
+	}
+	return v
+}
+
+var fileNames = []string{"go.mod", "x.go", "sub/y.go", "sub/deep/z.txt", ".hidden", ".git/config", "sub/.keep", "A.go", "a.go", "a-b.go", "a.b/c", "a/c", "README", "..x", "sub/x.go", "b/.x/y", "_u", "Z/z"}
+
+func genFiles(r *rand.Rand, path, vers, tag string) []afile {
+	var fs []afile
+	if r.Intn(10) != 0 {
+		var info string
+		switch r.Intn(5) {
+		case 0:
+			info = fmt.Sprintf(`{"Version":%q}`+"\n", vers)
+		case 1:
+			info = fmt.Sprintf(`{"Version":%q,"Short":"abcdef123456"}`+"\n", vers)
+		case 2:
+			info = fmt.Sprintf(`{"Version":%q,"Short":"%012x"}`+"\n", vers, r.Int63n(1<<48))
+		case 3:
+			info = "not json " + tag + "\n"
+		default:
+			info = fmt.Sprintf(`{"Version":%q,"Time":"2018-02-14T00:45:20Z","Short":"0123abc"}`+"\n", vers)
+		}
+		fs = append(fs, afile{".info", []byte(info)})
+	}
+	if r.Intn(10) != 0 {
+		fs = append(fs, afile{".mod", []byte("module " + path + "\n// " + tag + "\n")})
+	}
+	used := map[string]bool{}
+	n := r.Intn(7)
+	for i := 0; i < n; i++ {
+		nm := fileNames[r.Intn(len(fileNames))]
+		// a name may not be both a file and a directory
+		clash := used[nm]
+		for u := range used {
+			if strings.HasPrefix(u, nm+"/") || strings.HasPrefix(nm, u+"/") {
+				clash = true
+			}
+		}
+		if clash {
+			continue
+		}
+		used[nm] = true
+		var data string
+		switch r.Intn(4) {
+		case 0:
+			data = ""
+		case 1:
+			data = "package x // " + tag + "\n"
+		default:
+			data = fmt.Sprintf("line %d\n%s\nend\n", r.Intn(1000), tag)
+		}
+		fs = append(fs, afile{nm, []byte(data)})
+	}
+	r.Shuffle(len(fs), func(i, j int) { fs[i], fs[j] = fs[j], fs[i] })
+	return fs
+}
+
+func writeArchive(dir, base, layout string, fs []afile, r *rand.Rand) {
+	switch layout {
+	case "txtar", "txt":
+		a := &xtxtar.Archive{}
+		if r.Intn(3) == 0 {
+			a.Comment = []byte("written by the harness\n")
+		}
+		for _, f := range fs {
+			a.Files = append(a.Files, xtxtar.File{Name: f.name, Data: f.data})
+		}
+		must(os.WriteFile(filepath.Join(dir, base+"."+layout), xtxtar.Format(a), 0o666))
+	case "dir":
+		root := filepath.Join(dir, base)
+		must(os.MkdirAll(root, 0o777))
+		for _, f := range fs {
+			p := filepath.Join(root, filepath.FromSlash(f.name))
+			must(os.MkdirAll(filepath.Dir(p), 0o777))
+			data := f.data
+			if r.Intn(6) == 0 {
+				data = append(append([]byte{}, data...), 0, 0xff, '-', '-', ' ', 'x', ' ', '-', '-', '\n', 'n', 'o', ' ', 'n', 'l')
+			}
+			must(os.WriteFile(p, data, 0o666))
+		}
+	}
+}
+
+type scenario struct {
+	dir  string
+	mods [][2]string // intended (path, version) pairs
+}
+
+// genDir writes a module directory and returns the intended modules.
+func genDir(r *rand.Rand, dir string, allowBad bool) [][2]string {
+	var mods [][2]string
+	n := 1 + r.Intn(6)
+	var paths []string
+	for i := 0; i < 1+r.Intn(3); i++ {
+		paths = append(paths, genPath(r))
+	}
+	for i := 0; i < n; i++ {
+		p := paths[r.Intn(len(paths))]
+		if allowBad && r.Intn(12) == 0 {
+			p = badPaths[r.Intn(len(badPaths))]
+		}
+		v := genVersion(r, p)
+		if allowBad && r.Intn(30) == 0 {
+			v = oddVersions[len(oddVersions)-2+r.Intn(2)]
+		}
+		base := strings.ReplaceAll(escapeIndep(p), "/", "_") + "_" + escapeIndep(v)
+		if len(base) > 200 || strings.ContainsAny(base, "/\x00") {
+			continue
+		}
+		mods = append(mods, [2]string{p, v})
+		var layouts []string
+		switch k := r.Intn(20); {
+		case k < 7:
+			layouts = []string{"txtar"}
+		case k < 12:
+			layouts = []string{"txt"}
+		case k < 17:
+			layouts = []string{"dir"}
+		case k == 17:
+			layouts = []string{"txtar", "txt"}
+		case k == 18:
+			layouts = []string{"txt", "dir"}
+		default:
+			layouts = []string{"txtar", "txt", "dir"}
+		}
+		for _, l := range layouts {
+			writeArchive(dir, base, l, genFiles(r, p, v, l), r)
+		}
+	}
+	// entries the server must ignore or that are quirks
+	switch r.Intn(8) {
+	case 0:
+		must(os.WriteFile(filepath.Join(dir, "README.md"), []byte("x"), 0o666))
+	case 1:
+		must(os.WriteFile(filepath.Join(dir, "example.com_plain_v1.0.0"), []byte("-- .info --\n{}\n"), 0o666)) // regular file without extension
+	case 2:
+		must(os.MkdirAll(filepath.Join(dir, "example.com_dirtxt_v1.0.0.txt"), 0o777)) // a directory called *.txt
+	case 3:
+		must(os.MkdirAll(filepath.Join(dir, "example.com_empty_v1.0.0"), 0o777)) // empty directory archive
+	case 4:
+		must(os.WriteFile(filepath.Join(dir, "noversion.txt"), []byte("-- .info --\n{}\n"), 0o666))
+	}
+	return mods
+}
+
+// genURLs: every endpoint of every stored module, aliasing requests, non-stored modules, malformed URLs.
+func genURLs(r *rand.Rand, es []entry, stored map[[2]string]*storedMod, intended [][2]string) []string {
+	var urls []string
+	add := func(u string) { urls = append(urls, u) }
+	endpoints := func(p, v string) {
+		ep, ev := escapeIndep(p), escapeIndep(v)
+		// the aliasing zip request goes first for half of the modules (cache poisoning regression)
+		alias := func() {
+			if i := strings.LastIndex(p, "/"); i > 0 && strings.Contains(p[:i], "/") {
+				add("/mod/" + escapeIndep(p[:i]) + "/@v/" + escapeIndep(p[i+1:]) + "_" + ev + ".zip")
+				add("/mod/" + escapeIndep(p[:i]) + "/@v/" + escapeIndep(p[i+1:]) + "_" + ev + ".info")
+			}
+			if i := strings.LastIndex(p, "/"); i > 0 && strings.Contains(p[:i], "/") {
+				q := p[:i] + "_" + p[i+1:]
+				add("/mod/" + escapeIndep(q) + "/@v/" + ev + ".zip")
+				add("/mod/" + escapeIndep(q) + "/@v/" + ev + ".mod")
+				add("/mod/" + escapeIndep(q) + "/@v/list")
+			}
+			if i := strings.Index(p, "_"); i > 0 {
+				q := p[:i] + "/" + p[i+1:]
+				add("/mod/" + escapeIndep(q) + "/@v/" + ev + ".zip")
+				add("/mod/" + escapeIndep(q) + "/@v/list")
+			}
+		}
+		first := r.Intn(2) == 0
+		if first {
+			alias()
+		}
+		add("/mod/" + ep + "/@v/list")
+		for _, ext := range []string{"info", "mod", "zip", "zip", "ziq", ""} {
+			if ext == "" {
+				add("/mod/" + ep + "/@v/" + ev)
+			} else {
+				add("/mod/" + ep + "/@v/" + ev + "." + ext)
+			}
+		}
+		add("/mod/" + ep + "/@latest")
+		if !first {
+			alias()
+		}
+	}
+	var keys [][2]string
+	for k := range stored {
+		keys = append(keys, k)
+	}
+	sort.Slice(keys, func(i, j int) bool { return keys[i][0]+"\x00"+keys[i][1] < keys[j][0]+"\x00"+keys[j][1] })
+	for _, k := range keys {
+		endpoints(k[0], k[1])
+	}
+	for _, m := range intended {
+		if stored[m] == nil {
+			endpoints(m[0], m[1])
+		}
+	}
+	// commit-hash queries
+	for _, k := range keys {
+		ep := escapeIndep(k[0])
+		for _, h := range []string{"abcdef123456", "abcdef1", "abcdef1234567890", "0123abc", "0123", "ffff", "0", "0123456789ab"} {
+			if r.Intn(3) == 0 {
+				add("/mod/" + ep + "/@v/" + h + "." + []string{"info", "mod", "zip"}[r.Intn(3)])
+			}
+		}
+	}
+	// non-stored versions of stored paths, non-stored paths
+	for _, k := range keys {
+		if r.Intn(2) == 0 {
+			v := genVersion(r, k[0])
+			add("/mod/" + escapeIndep(k[0]) + "/@v/" + escapeIndep(v) + "." + []string{"info", "mod", "zip"}[r.Intn(3)])
+		}
+	}
+	for i := 0; i < 4; i++ {
+		p := genPath(r)
+		add("/mod/" + escapeIndep(p) + "/@v/list")
+		add("/mod/" + escapeIndep(p) + "/@v/" + escapeIndep(genVersion(r, p)) + "." + []string{"info", "mod", "zip"}[r.Intn(3)])
+	}
+	// malformed
+	mal := []string{"/", "/mod", "/mod/", "/mod/x", "/mod/example.com/@v/", "/other/example.com/a/@v/list", "/mod/example.com/a/@v/list/",
+		"/mod/Example.com/a/@v/list", "/mod/example.com/A/@v/list", "/mod/example.com/a!/@v/list", "/mod/example.com/!1/@v/list",
+		"/mod/example.com/a/@v/v1.0.0.info/extra", "/mod/example.com/a/@v/V1.0.0.info", "/mod/example.com/a/@v/@v/list",
+		"/mod/example.com/a/@v/v1.0.0!.info", "/mod//@v/list", "/mod/example.com/a b/@v/list", "/mod/example.com/a/@v/v1.0.0%.info",
+		"/mod/example.com/a/@v/.info", "/mod/example.com/a/@v/..info", "/mod/example.com/a/@v/v1.0.0?.info", "/mod/example.com/é/@v/list",
+		"/mod/example.com/a/@v/\xff.info", "/mod/example.com/a/@v/list.info", "/mod/example.com/a/@v/v1.0.0.", "/mod/example.com/a//@v/list"}
+	for _, k := range keys {
+		if r.Intn(3) == 0 {
+			ep, ev := escapeIndep(k[0]), escapeIndep(k[1])
+			mal = append(mal, "/mod/"+ep+"/@v/"+strings.ToUpper(ev)+".info", "/mod/"+strings.ToUpper(ep)+"/@v/list", "/mod/"+ep+"/@v/"+ev+".INFO", "/mod/"+ep+"/"+ev+".info", "/Mod/"+ep+"/@v/list", "/mod/"+ep+"/@v/"+ev+"..info")
+		}
+	}
+	for _, m := range mal {
+		if r.Intn(3) != 0 {
+			add(m)
+		}
+	}
+	return urls
+}
+
+// ============================================================ unexported functions (isPseudoVersion, allHex)
+
+const helperMain = `package main
+
+import (
+	"bufio"
+	"encoding/hex"
+	"fmt"
+	"os"
+
+	"verifhelper/goproxytest"
+)
+
+func main() {
+	in := bufio.NewReaderSize(os.Stdin, 1<<20)
+	out := bufio.NewWriter(os.Stdout)
+	defer out.Flush()
+	for {
+		line, err := in.ReadString('\n')
+		if line == "" && err != nil {
+			return
+		}
+		for len(line) > 0 && (line[len(line)-1] == '\n' || line[len(line)-1] == '\r') {
+			line = line[:len(line)-1]
+		}
+		b, _ := hex.DecodeString(line)
+		ps, ah := 0, 0
+		if goproxytest.VerifIsPseudo(string(b)) {
+			ps = 1
+		}
+		if goproxytest.VerifAllHex(string(b)) {
+			ah = 1
+		}
+		fmt.Fprintf(out, "%d %d\n", ps, ah)
+	}
+}
+`
+
+// unexportedBits runs isPseudoVersion and allHex of a scratch copy of the package (plus an export file) on the inputs.
+func unexportedBits(repo string, inputs [][]byte) ([][2]int, error) {
+	tmp, err := os.MkdirTemp("", "verif-proxy-helper")
+	if err != nil {
+		return nil, err
+	}
+	defer os.RemoveAll(tmp)
+	pkg := filepath.Join(tmp, "goproxytest")
+	must(os.MkdirAll(pkg, 0o777))
+	srcs, _ := filepath.Glob(filepath.Join(repo, "goproxytest", "*.go"))
+	for _, s := range srcs {
+		if strings.HasSuffix(s, "_test.go") {
+			continue
+		}
+		d, err := os.ReadFile(s)
+		if err != nil {
+			return nil, err
+		}
+		must(os.WriteFile(filepath.Join(pkg, filepath.Base(s)), d, 0o666))
+	}
+	must(os.WriteFile(filepath.Join(pkg, "export_verif.go"), []byte("package goproxytest\n\nfunc VerifIsPseudo(v string) bool { return isPseudoVersion(v) }\nfunc VerifAllHex(v string) bool { return allHex(v) }\n"), 0o666))
+	must(os.WriteFile(filepath.Join(tmp, "main.go"), []byte(helperMain), 0o666))
+	gomod := "module verifhelper\n\ngo 1.23\n\nrequire github.com/rogpeppe/go-internal v0.0.0\n\nreplace github.com/rogpeppe/go-internal => " + repo + "\n"
+	must(os.WriteFile(filepath.Join(tmp, "go.mod"), []byte(gomod), 0o666))
+	if d, err := os.ReadFile(filepath.Join(repo, "go.sum")); err == nil {
+		must(os.WriteFile(filepath.Join(tmp, "go.sum"), d, 0o666))
+	}
+	build := exec.Command("go", "build", "-o", "helper", ".")
+	build.Dir = tmp
+	build.Env = append(os.Environ(), "GOFLAGS=-mod=mod", "GOPROXY=off", "GOSUMDB=off", "GOTOOLCHAIN=local")
+	if out, err := build.CombinedOutput(); err != nil {
+		return nil, fmt.Errorf("helper build: %v: %s", err, out)
+	}
+	cmd := exec.Command(filepath.Join(tmp, "helper"))
+	var in bytes.Buffer
+	for _, b := range inputs {
+		fmt.Fprintf(&in, "%x\n", b)
+	}
+	cmd.Stdin = &in
+	outb, err := cmd.Output()
+	if err != nil {
+		return nil, fmt.Errorf("helper run: %v", err)
+	}
+	res := make([][2]int, 0, len(inputs))
+	sc := bufio.NewScanner(bytes.NewReader(outb))
+	for sc.Scan() {
+		var a, b int
+		fmt.Sscanf(sc.Text(), "%d %d", &a, &b)
+		res = append(res, [2]int{a, b})
+	}
+	if len(res) != len(inputs) {
+		return nil, fmt.Errorf("helper answered %d of %d", len(res), len(inputs))
+	}
+	return res, nil
+}
+
+// ============================================================ function-level cases
+
+func showErr(s string, err error) string {
+	if err != nil {
+		return "err"
+	}
+	return hx(s)
+}
+
+func b01(b bool) string {
+	if b {
+		return "1"
+	}
+	return "0"
+}
+
+// strImplLine: what the x/mod functions (and, through the helper, isPseudoVersion / allHex) say about s.
+func strImplLine(s string, bits *[2]int) string {
+	ep, e1 := module.EscapePath(s)
+	up, e2 := module.UnescapePath(s)
+	ev, e3 := module.EscapeVersion(s)
+	uv, e4 := module.UnescapeVersion(s)
+	pre, pm, ok := module.SplitPathVersion(s)
+	line := "EP=" + showErr(ep, e1) + " UP=" + showErr(up, e2) + " EV=" + showErr(ev, e3) + " UV=" + showErr(uv, e4) +
+		" CP=" + b01(module.CheckPath(s) == nil) + " SPV=" + hx(pre) + "," + hx(pm) + "," + b01(ok) +
+		" SV=" + b01(semver.IsValid(s)) + " MJ=" + hx(semver.Major(s)) + " BD=" + hx(semver.Build(s))
+	if bits != nil {
+		line += fmt.Sprintf(" PS=%d AH=%d", bits[0], bits[1])
+	}
+	return line
+}
+
+// modelStrLine drops the fields the implementation side cannot produce.
+func modelStrLine(line string, haveBits bool) string {
+	fs := strings.Fields(line)
+	var keep []string
+	for _, f := range fs {
+		if strings.HasPrefix(f, "DB=") || (!haveBits && (strings.HasPrefix(f, "PS=") || strings.HasPrefix(f, "AH="))) {
+			continue
+		}
+		keep = append(keep, f)
+	}
+	return strings.Join(keep, " ")
+}
+
+func enumStrings(alpha []byte, maxLen int, f func([]byte)) {
+	buf := make([]byte, 0, maxLen)
+	var rec func()
+	rec = func() {
+		f(buf)
+		if len(buf) == maxLen {
+			return
+		}
+		for _, c := range alpha {
+			buf = append(buf, c)
+			rec()
+			buf = buf[:len(buf)-1]
+		}
+	}
+	rec()
+}
+
+func mutate(r *rand.Rand, s string) string {
+	b := []byte(s)
+	if len(b) == 0 {
+		return s
+	}
+	const chars = "aAzZ09!_-./~+ vV@\x00\x7f\x80é"
+	switch r.Intn(4) {
+	case 0:
+		b[r.Intn(len(b))] = chars[r.Intn(len(chars))]
+	case 1:
+		i := r.Intn(len(b) + 1)
+		b = append(b[:i], append([]byte{chars[r.Intn(len(chars))]}, b[i:]...)...)
+	case 2:
+		i := r.Intn(len(b))
+		b = append(b[:i], b[i+1:]...)
+	default:
+		i := r.Intn(len(b))
+		if 'a' <= b[i] && b[i] <= 'z' {
+			b[i] -= 32
+		} else if 'A' <= b[i] && b[i] <= 'Z' {
+			b[i] += 32
+		}
+	}
+	return string(b)
+}
+
+// ============================================================ the run
 
 func runProxy(tier string, seed int64, model string, replay string) *corr.Result {
-	return corr.NewResult("proxy", tier, seed)
+	res := corr.NewResult("proxy", tier, seed)
+	log.SetOutput(io.Discard) // the server logs every 404
+	r := rand.New(rand.NewSource(seed))
+	repo := os.Getenv("VERIF_REPO")
+	if repo == "" {
+		repo = "/repo"
+	}
+	thorough := tier == "thorough"
+
+	var cases []string     // model lines
+	var implLines []string // expected answers from the implementation
+	var post []func(modelLine string) string
+
+	// ------------------------------------------------------------ function-level cases
+	var strInputs [][]byte
+	var pairInputs [][2]string
+	if replay == "" || strings.HasPrefix(replay, "str ") || strings.HasPrefix(replay, "pair ") {
+		seen := map[string]bool{}
+		addStr := func(b []byte) {
+			if !seen[string(b)] {
+				seen[string(b)] = true
+				strInputs = append(strInputs, append([]byte{}, b...))
+			}
+		}
+		if f := strings.Fields(replay); len(f) == 2 && f[0] == "str" {
+			addStr(corr.Unhx(f[1]))
+		} else if len(f) == 3 && f[0] == "pair" {
+			pairInputs = append(pairInputs, [2]string{string(corr.Unhx(f[1])), string(corr.Unhx(f[2]))})
+		} else {
+			l1, l2, nmut := 4, 5, 6000
+			if thorough {
+				l1, l2, nmut = 5, 7, 80000
+			}
+			enumStrings([]byte("aA!/.v10-_~"), l1, addStr)
+			enumStrings([]byte("v10.-+a"), l2, addStr)
+			res.Exhaustive = true
+			res.Extra["exhaustive_spaces"] = []string{fmt.Sprintf("all strings over %q up to length %d", "aA!/.v10-_~", l1), fmt.Sprintf("all strings over %q up to length %d (version shaped)", "v10.-+a", l2)}
+			var pool []string
+			pool = append(pool, hosts...)
+			pool = append(pool, gopkgs...)
+			pool = append(pool, badPaths...)
+			for _, l := range [][]string{relVersions, preVersions, buildVersions, pseudoVersions, oddVersions} {
+				pool = append(pool, l...)
+			}
+			for _, w := range []string{"con", "CON.x", "nul.txt", "com1", "lpt9.a", "a~1", "a~b1", "~1", "a~12.x", "x.", ".x", "..", "a..b", "-a", "abcdef", "0123456789abcdef", "ABCDEF", "", "example.com/x/v2", "example.com/x/v2.0", "example.com/x/v0", "example.com/v2", "a.b/v2", "gopkg.in/x.v01", "gopkg.in/v2", "gopkg.in/x.v2-unstable", "gopkg.in/x.v0-unstable"} {
+				pool = append(pool, w)
+			}
+			for i := 0; i < 300; i++ {
+				p := genPath(r)
+				pool = append(pool, p, escapeIndep(p), strings.ReplaceAll(escapeIndep(p), "/", "_")+"_"+escapeIndep(genVersion(r, p)))
+				pool = append(pool, genVersion(r, p))
+			}
+			for _, s := range pool {
+				addStr([]byte(s))
+			}
+			for i := 0; i < nmut; i++ {
+				s := pool[r.Intn(len(pool))]
+				for k := r.Intn(3); k >= 0; k-- {
+					s = mutate(r, s)
+				}
+				addStr([]byte(s))
+			}
+			npair := 4000
+			if thorough {
+				npair = 60000
+			}
+			allV := append(append(append(append(append([]string{}, relVersions...), preVersions...), buildVersions...), pseudoVersions...), oddVersions...)
+			for i := 0; i < npair; i++ {
+				switch i % 3 {
+				case 0: // Check(path, version)
+					p := genPath(r)
+					if r.Intn(6) == 0 {
+						p = badPaths[r.Intn(len(badPaths))]
+					}
+					v := genVersion(r, p)
+					if r.Intn(4) == 0 {
+						v = mutate(r, v)
+					}
+					pairInputs = append(pairInputs, [2]string{p, v})
+				case 1: // Compare(v, w)
+					a, b := allV[r.Intn(len(allV))], allV[r.Intn(len(allV))]
+					if r.Intn(3) == 0 {
+						a = mutate(r, a)
+					}
+					if r.Intn(3) == 0 {
+						b = mutate(r, b)
+					}
+					pairInputs = append(pairInputs, [2]string{a, b})
+				default:
+					a := fmt.Sprintf("v%d.%d.%d", r.Intn(12), r.Intn(12), r.Intn(12))
+					b := fmt.Sprintf("v%d.%d.%d", r.Intn(12), r.Intn(12), r.Intn(12))
+					pres := []string{"", "-1", "-2", "-10", "-a", "-a.1", "-a.b", "-A", "-1.a", "-a-", "-0", "-rc.1", "-rc.10", "-rc.2"}
+					pairInputs = append(pairInputs, [2]string{a + pres[r.Intn(len(pres))], b + pres[r.Intn(len(pres))]})
+				}
+			}
+		}
+	}
+	bits, berr := [][2]int(nil), error(nil)
+	if len(strInputs) > 0 {
+		bits, berr = unexportedBits(repo, strInputs)
+		if berr != nil {
+			res.Observations = append(res.Observations, "isPseudoVersion/allHex not compared directly (helper unavailable: "+berr.Error()+"); they remain covered through the list endpoint and the commit-hash requests")
+		}
+	}
+	nStrNontrivial := 0
+	for i, s := range strInputs {
+		var bp *[2]int
+		if bits != nil {
+			bp = &bits[i]
+		}
+		cases = append(cases, "str "+corr.Hx(s))
+		line := strImplLine(string(s), bp)
+		implLines = append(implLines, line)
+		have := bits != nil
+		post = append(post, func(m string) string { return modelStrLine(m, have) })
+		if !strings.Contains(line, "EP=err UP=err EV=err UV=err") || strings.Contains(line, "SV=1") {
+			nStrNontrivial++
+		}
+	}
+	for _, p := range pairInputs {
+		cases = append(cases, "pair "+hx(p[0])+" "+hx(p[1]))
+		implLines = append(implLines, "CK="+b01(module.Check(p[0], p[1]) == nil)+fmt.Sprintf(" CMP=%d", semver.Compare(p[0], p[1])))
+		post = append(post, nil)
+	}
+	res.Distribution["str-cases"] = len(strInputs)
+	res.Distribution["str-cases-some-codec-succeeds"] = nStrNontrivial
+	res.Distribution["pair-cases"] = len(pairInputs)
+
+	// ------------------------------------------------------------ scenarios
+	type scn struct {
+		es     []entry
+		urls   []string
+		out    runOut
+		stored map[[2]string]*storedMod
+		line   string
+	}
+	var scns []*scn
+	runScenario := func(es0 []entry, gen func(dir string) [][2]string, urls0 []string, conc int) {
+		dir, err := os.MkdirTemp("", "verif-proxy")
+		must(err)
+		defer os.RemoveAll(dir)
+		var intended [][2]string
+		if gen != nil {
+			intended = gen(dir)
+		} else {
+			writeStore(dir, es0)
+		}
+		s := &scn{es: readStore(dir)}
+		s.stored = specStored(s.es)
+		s.urls = urls0
+		if s.urls == nil {
+			s.urls = genURLs(r, s.es, s.stored, intended)
+		}
+		s.out = runServers(dir, s.urls, conc, r)
+		hurls := make([]string, len(s.urls))
+		for i, u := range s.urls {
+			hurls[i] = hx(u)
+		}
+		us := "_"
+		if len(hurls) > 0 {
+			us = strings.Join(hurls, ",")
+		}
+		s.line = "scn " + encodeStore(s.es, r) + " " + shortsField(s.es) + " " + us
+		scns = append(scns, s)
+	}
+	concCopies := 3
+	if f := strings.Fields(replay); len(f) == 4 && f[0] == "scn" {
+		var urls []string
+		if f[3] != "_" {
+			for _, h := range strings.Split(f[3], ",") {
+				urls = append(urls, string(corr.Unhx(h)))
+			}
+		}
+		runScenario(decodeStore(f[1]), nil, urls, concCopies)
+	} else if replay == "" {
+		// regression inputs of the aliasing / zip-cache-poisoning defect (fixed in /repo by 3b75cd6): always in the run
+		ar := func(mod string) []byte {
+			return []byte("-- .info --\n{\"Version\":\"v1.0.0\"}\n-- .mod --\nmodule " + mod + "\n-- go.mod --\nmodule " + mod + "\n-- x.go --\npackage x\n")
+		}
+		runScenario([]entry{{name: "example.com_a_b_v1.0.0.txt", data: ar("example.com/a/b")}}, nil,
+			[]string{"/mod/example.com/a/@v/b_v1.0.0.zip", "/mod/example.com/a/b/@v/v1.0.0.zip", "/mod/example.com/a/@v/b_v1.0.0.info", "/mod/example.com/a/@v/list", "/mod/example.com/a/b/@v/list", "/mod/example.com/a/b/@v/v1.0.0.info", "/mod/example.com/a/b/@v/v1.0.0.mod"}, 0)
+		runScenario([]entry{{name: "example.com_foo_bar_v1.0.0.txt", data: ar("example.com/foo_bar")}}, nil,
+			[]string{"/mod/example.com/foo_bar/@v/list", "/mod/example.com/foo_bar/@v/v1.0.0.info", "/mod/example.com/foo_bar/@v/v1.0.0.zip", "/mod/example.com/foo/bar/@v/v1.0.0.zip", "/mod/example.com/foo/bar/@v/list", "/mod/example.com/foo/bar/@v/v1.0.0.info"}, 0)
+		runScenario([]entry{{name: "example.com_a_b_v1.0.0.txt", data: ar("example.com/a/b")}}, nil,
+			[]string{"/mod/example.com/a/@v/b_v1.0.0.zip", "/mod/example.com/a/b/@v/v1.0.0.zip", "/mod/example.com/a_b/@v/v1.0.0.zip", "/mod/example.com/a/b/@v/v1.0.0.info"}, 8)
+		// the fixture of /repo's own test
+		if fes := readStore(filepath.Join(repo, "goproxytest", "testdata", "mod")); len(fes) > 0 {
+			runScenario(fes, nil, nil, concCopies)
+		}
+		n := 120
+		if thorough {
+			n = 1500
+		}
+		for i := 0; i < n; i++ {
+			allowBad := i%5 == 4
+			runScenario(nil, func(dir string) [][2]string { return genDir(r, dir, allowBad) }, nil, concCopies)
+		}
+	}
+	for _, s := range scns {
+		cases = append(cases, s.line)
+		if s.out.startErr != nil {
+			implLines = append(implLines, "ML=err")
+			post = append(post, nil)
+			continue
+		}
+		parts := make([]string, len(s.urls))
+		for i, u := range s.urls {
+			parts[i] = showResp(u, s.out.seq[i])
+		}
+		implLines = append(implLines, "R="+strings.Join(parts, ";"))
+		// the implementation's modList is not observable: keep only the responses of the model line
+		post = append(post, func(m string) string {
+			if i := strings.Index(m, " R="); i >= 0 && strings.HasPrefix(m, "ML=") {
+				return m[i+1:]
+			}
+			return m
+		})
+	}
+
+	modelOut, err := mdl.Run(model, nil, cases, 0)
+	if err != nil {
+		res.Observations = append(res.Observations, "model driver error: "+err.Error())
+		res.Disagree("<driver>", "", err.Error())
+		return res
+	}
+	for i := range cases {
+		m := modelOut[i]
+		if post[i] != nil {
+			m = post[i](m)
+		}
+		if m != implLines[i] {
+			c := cases[i]
+			if strings.HasPrefix(c, "scn ") {
+				// point at the first differing request
+				ms, is := strings.Split(strings.TrimPrefix(m, "R="), ";"), strings.Split(strings.TrimPrefix(implLines[i], "R="), ";")
+				detail := ""
+				for k := 0; k < len(ms) && k < len(is); k++ {
+					if ms[k] != is[k] {
+						f := strings.Fields(c)
+						detail = fmt.Sprintf("request #%d %q: impl %s model %s", k, string(corr.Unhx(strings.Split(f[3], ",")[k])), is[k], ms[k])
+						break
+					}
+				}
+				res.Disagree(c, trunc(implLines[i])+" | "+detail, trunc(m))
+			} else {
+				res.Disagree(c, implLines[i], m)
+			}
+		}
+	}
+
+	// ------------------------------------------------------------ oracle + concurrency
+	served := 0
+	reqs := 0
+	dupLists := 0
+	for _, s := range scns {
+		res.Distribution["scenarios"]++
+		if s.out.startErr != nil {
+			res.Distribution["scenarios-NewServer-error"]++
+			continue
+		}
+		for k, sm := range s.stored {
+			res.Distribution["stored-modules"]++
+			if len(sm.contents) > 1 {
+				res.Distribution["stored-modules-several-layouts"]++
+			}
+			if strings.Contains(k[0], "_") {
+				res.Distribution["stored-paths-with-underscore"]++
+			}
+			if k[0] != strings.ToLower(k[0]) || k[1] != strings.ToLower(k[1]) {
+				res.Distribution["stored-with-upper-case"]++
+			}
+			switch {
+			case module.IsPseudoVersion(k[1]):
+				res.Distribution["stored-version-pseudo"]++
+			case module.Check(k[0], k[1]) == nil:
+				res.Distribution["stored-version-valid"]++
+			default:
+				res.Distribution["stored-version-invalid-for-path"]++
+			}
+		}
+		for _, e := range s.es {
+			switch {
+			case e.isDir:
+				res.Distribution["layout-dir"]++
+			case strings.HasSuffix(e.name, ".txtar"):
+				res.Distribution["layout-txtar"]++
+			case strings.HasSuffix(e.name, ".txt"):
+				res.Distribution["layout-txt"]++
+			}
+		}
+		seenURL := map[string]bool{}
+		for i, u := range s.urls {
+			rp := s.out.seq[i]
+			reqs++
+			res.Distribution[fmt.Sprintf("status-%d", rp.status)]++
+			if !seenURL[u] {
+				seenURL[u] = true
+				if rp.status == 200 {
+					served++
+				}
+			}
+			input := "scn " + encodeStore(s.es, rand.New(rand.NewSource(1))) + " " + shortsField(s.es) + " " + hx(u)
+			class, what, checked := oracle(s.es, s.stored, u, rp)
+			if checked {
+				res.OracleChecked["C20"]++
+			}
+			if class != "" {
+				res.Violate("C20", input, what, class)
+			}
+			if rp.status == 200 && strings.HasSuffix(u, "/@v/list") {
+				ls := strings.Split(strings.TrimSuffix(string(rp.body), "\n"), "\n")
+				sort.Strings(ls)
+				for k := 1; k < len(ls); k++ {
+					if ls[k] == ls[k-1] {
+						dupLists++
+						break
+					}
+				}
+			}
+			// concurrent pass: every response for this URL must be byte-identical to the sequential one
+			for _, c := range s.out.conc[u] {
+				res.OracleChecked["C20"]++
+				if c.status != rp.status || !bytes.Equal(c.body, rp.body) {
+					res.Violate("C20", input, fmt.Sprintf("%s: a concurrent request got status %d / %d bytes, the sequential one status %d / %d bytes", u, c.status, len(c.body), rp.status, len(rp.body)), "concurrent-differs")
+					break
+				}
+			}
+		}
+		// repeated requests inside the sequential pass must agree too
+		first := map[string]resp{}
+		for i, u := range s.urls {
+			if f, ok := first[u]; ok {
+				if f.status != s.out.seq[i].status || !bytes.Equal(f.body, s.out.seq[i].body) {
+					res.Violate("C20", "scn "+encodeStore(s.es, rand.New(rand.NewSource(1)))+" "+shortsField(s.es)+" "+hx(u)+","+hx(u), u+": repeated request differs", "repeat-differs")
+				}
+			} else {
+				first[u] = s.out.seq[i]
+			}
+		}
+	}
+	res.Distribution["requests-sequential"] = reqs
+	res.Distribution["distinct-requests-served-200"] = served
+	if dupLists > 0 {
+		res.Observations = append(res.Observations, fmt.Sprintf("%d list responses name a version twice: the generator stores some module versions in two layouts at once (x.txt and x.txtar / directory) to exercise the lookup order; readModList then records the version once per entry. The oracle compares the list as a set.", dupLists))
+	}
+	res.Evaluations = len(cases) - len(scns) + reqs
+	res.DistinctNontrivial = served + nStrNontrivial
+	res.Rule = "distinct (generated directory, URL) requests that the real server answers with 200 (content served: list, .info, .mod or zip), plus distinct strings on which at least one of EscapePath/UnescapePath/EscapeVersion/UnescapeVersion succeeds or that are valid semantic versions; every request is answered by the real goproxytest server over loopback HTTP and by the Lean model (zips compared as ordered (name, bytes) lists), every string by x/mod and the model"
+	for _, i := range []int{0, len(strInputs) / 2, len(strInputs) + len(pairInputs)/2, len(cases) - len(scns), len(cases) - 1} {
+		if i >= 0 && i < len(cases) {
+			res.Samples = append(res.Samples, map[string]string{"case": trunc(cases[i]), "model": trunc(modelOut[i])})
+		}
+	}
+	return res
+}
+
+func trunc(s string) string {
+	if len(s) > 1500 {
+		return s[:1500] + "…"
+	}
+	return s
 }
